@@ -218,9 +218,49 @@ def c_lit(v, t):
     return "auv::ld<%s>(%dULL, %d)" % (t, n, e)
 
 
+def int_pow_rule(ctx):
+    """checked_int_pow for the two integral types get_value ever evaluates in (Widen<T> = uintmax_t,
+    intmax_t): for EVERY base >= 1 (<= INTMAX_MAX for the signed one) and EVERY exponent, no
+    multiplication of the square-and-multiply loop wraps (unsigned) or overflows (signed: undefined
+    behaviour) and no division divides by zero.  Decided by an inferred inductive invariant over the
+    loop-carried values (candidates v >= 1, v <= INTMAX_MAX; vlib/loops.py) under which every
+    operation of an arbitrary iteration is an obligation of the relational engine (vlib/linrel.py).
+    That `ERR_CANNOT_FIT` is reported exactly when base^exp exceeds the type is NOT decided here (the
+    grid below samples it)."""
+    from vlib import ir, loops, linrel
+    from vlib.linrel import var, K
+    src = ('#include <cstdint>\n#include "au/magnitude.hh"\n'
+           'extern "C" bool cip_u(std::uint64_t b, std::uint64_t e) { return au::detail::checked_int_pow<std::uint64_t>(b, e).outcome == au::detail::MagRepresentationOutcome::OK; }\n'
+           'extern "C" bool cip_s(std::int64_t b, std::uint64_t e) { return au::detail::checked_int_pow<std::int64_t>(b, e).outcome == au::detail::MagRepresentationOutcome::OK; }\n')
+    ll, err = ir.build_ir(ctx, src, "c11pow")
+    if not ll:
+        raise AnalysisBroken("checked_int_pow wrappers do not compile: %s" % err[-400:])
+    mod = ir.parse_module(ll, only=lambda n: n in ("cip_u", "cip_s"))
+    umax, smax = (1 << 64) - 1, (1 << 63) - 1
+    out = {}
+    undecided = []
+    for fn, top in (("cip_u", umax), ("cip_s", smax)):
+        try:
+            pre = [K(1) - var("p0"), var("p0") - K(top), -var("p1"), var("p1") - K(umax)]
+            r = loops.check_loop(mod.funcs[fn], mod, pre, [(">= 1", lambda v: K(1) - v), ("<= max", lambda v, top=top: v - K(top))])
+            ctx.require(r["phis"] == 3 and r["obligations"] >= 6, "checked_int_pow (%s): %d loop-carried values, %d obligations (expected base, exponent, result; two products and two quotients)" % (fn, r["phis"], r["obligations"]))
+            for what, node in r["failures"]:
+                loc = ", inlined at ".join("%s:%s" % (f.split("/au/code/")[-1], l) for f, l in mod.loc_chain(node.dbg)) if getattr(node, "dbg", None) else "?"
+                ctx.violation("int_pow:%s:%s" % (fn, what), "checked_int_pow<%s>: %s at %s (%s), for some base >= 1 and exponent, under the inferred invariant {%s}"
+                              % ("std::uint64_t" if fn == "cip_u" else "std::int64_t", what, node.pretty()[:100], loc, ", ".join("%%%s %s" % x for x in r["invariant"])))
+            out[fn] = dict(invariant=["%%%s %s" % x for x in r["invariant"]], obligations=r["obligations"], failures=len(r["failures"]), paths=r["paths"])
+        except linrel.Failure as e:
+            undecided.append("%s: %s" % (fn, e))
+    if undecided and not ctx.violations:
+        raise AnalysisBroken("checked_int_pow is outside the fragment of the relational engine: %s" % "; ".join(undecided))
+    return out
+
+
 def body(ctx):
     rnd = random.Random(ctx.seed)
     configs = cxx.configs_for(ctx.tier)
+    ipr = int_pow_rule(ctx)
+    ctx.log("checked_int_pow: %s" % ipr)
     grid = build_grid(ctx, rnd)
     prelude = witness.DEFAULT_PRELUDE + USING
     pairs = []
@@ -329,8 +369,8 @@ def body(ctx):
     nbad = witness.report_mismatches(ctx, items, results, prelude=prelude)
     ctx.coverage.update(dict(
         evaluations=len(pairs) + len(items) * len(configs), distinct_nontrivial=len(pairs),
-        rule="(magnitude, type) pairs: magnitudes prod p^(a/b) * pi^c over primes up to 2^64-59 and the bounded exponent set, integers max-1/max/max+1 of every integral type, floating limits (2^emax, smallest normal / denormal, below the denormals, powers of ten around FLT/DBL limits); representable_in, outcome and value extracted from clang's constant evaluator and compared with exact integer / 400-bit real arithmetic; accepted values re-asserted on both compilers, refused ones are compile-fail witnesses; classification items per magnitude",
-        samples=[dict(magnitude=mag_cpp(grid[5][0]), why=grid[5][1])], exhaustive=False,
+        rule="checked_int_pow<uintmax_t> and <intmax_t> (the two integral types get_value evaluates in): for every base >= 1 and every exponent no product of the square-and-multiply loop wraps / overflows and no quotient divides by zero, by an inferred inductive invariant over the loop-carried values; (magnitude, type) pairs: magnitudes prod p^(a/b) * pi^c over primes up to 2^64-59 and the bounded exponent set, integers max-1/max/max+1 of every integral type, floating limits (2^emax, smallest normal / denormal, below the denormals, powers of ten around FLT/DBL limits); representable_in, outcome and value extracted from clang's constant evaluator and compared with exact integer / 400-bit real arithmetic; accepted values re-asserted on both compilers, refused ones are compile-fail witnesses; classification items per magnitude",
+        samples=[dict(magnitude=mag_cpp(grid[5][0]), why=grid[5][1])], exhaustive=False, checked_int_pow=ipr,
         magnitudes=len(grid), pairs=len(pairs), model_obligations=nob, model_discharged=ndis, w_items=len(items), w_mismatches=nbad,
         configs=[c.name for c in configs], engine_stats=stats))
     ctx.assumptions += ["'within T's range' for floating T is read with the statement's own 'strictly positive' clause: a value that rounds to zero is not representable",
